@@ -383,6 +383,17 @@ def run(rep, tier):
             rep.obligation("proxy configuration: the same %d witness requests sent through adapter -> s3s_aws::Proxy (aws-sdk-s3 client) -> second adapter "
                            "arrive in the typed input of the second adapter's backend with the same values" % nwp, "replayer(not solver-decided)",
                            "holds", time.time() - t1, queries=nwp)
+    t1 = time.time()
+    try:
+        npp, badpp = C02replay.proxy_payload_witnesses(rep)
+        if badpp:
+            res = rep.violation("proxy-payload:%s" % badpp[0][0], "real build, proxy chain: %s: %s" % badpp[0], rep.save_cex("proxy_payload", badpp), confirmed=True)
+            rep.obligation("proxy payload witnesses", "replayer", res, time.time() - t1)
+        else:
+            rep.obligation("proxy configuration: %d operations with a streamed body or an XML payload arrive at the second adapter's backend exactly as "
+                           "they arrive directly" % npp, "replayer(not solver-decided)", "holds", time.time() - t1, queries=npp)
+    except Inconclusive as e:
+        rep.fail_inconclusive("proxy payload witnesses: %s" % e)
     for d in prof.CATALOGUE_DOC:
         rep.assume("catalogue: " + d)
     rep.assume("header constant re-exports of hyper::header follow the http crate's naming (CONTENT_TYPE = \"content-type\")")
